@@ -288,7 +288,17 @@ func c15Tickets(c *Ctx, p *Prog) {
 		if del == nil || !instrDominates(del, r) {
 			bad = "a ticket is returned at " + p.InstrPos(r) + " without having been deleted from the store: it would be presented again"
 		}
-		if _, isLookup := unspill(v).(*ssa.Extract); !isLookup {
+		// the value looked up in the store under the address: m[k] or the first result of v, ok := m[k]
+		isLookup := false
+		switch x := unspill(v).(type) {
+		case *ssa.Extract:
+			if lk, ok := x.Tuple.(*ssa.Lookup); ok && x.Index == 0 && isFieldLoad(lk.X, tSSStore, "store") {
+				isLookup = true
+			}
+		case *ssa.Lookup:
+			isLookup = isFieldLoad(x.X, tSSStore, "store")
+		}
+		if !isLookup {
 			bad = "the ticket returned is not the one looked up"
 		}
 		if !hasFact(ff.NC(r.Block()), func(f Fact) bool { _, ok := p.FactCallBool(f, "(*$M/transports/scramblesuit.ssTicket).isValid"); return ok && f.Pol }) {
@@ -416,14 +426,17 @@ func c15Tickets(c *Ctx, p *Prog) {
 				continue
 			}
 			avoid := map[ssa.Instruction]bool{dh[0]: true}
-			first := failBlk.Instrs[0]
+			var failPred *ssa.BasicBlock
+			if len(failBlk.Preds) == 1 {
+				failPred = failBlk.Preds[0]
+			}
 			for _, r := range returnsOf(ch) {
-				if first == ssa.Instruction(r) || canReachWithout(first, r, avoid) {
+				if canReachFeasible(failBlk, failPred, r, avoid) {
 					bad = "a failure of " + p.CalleeID(call.Common()) + " returns at " + p.InstrPos(r) + " instead of falling back to UniformDH"
 				}
 			}
 			for w := range wset {
-				if canReachWithout(first, w, avoid) {
+				if canReachFeasible(failBlk, failPred, w, avoid) {
 					bad = "a failure of " + p.CalleeID(call.Common()) + " still writes to the network"
 				}
 			}
